@@ -365,7 +365,7 @@ Section Resolve.
     = (qname pm (fst (fst a)) (snd (fst a)), snd a) :: map (fun a : attr => let '(ns, local, v) := a in (qname pm ns local, v)) r.
   Proof. destruct a as [[ns l] v]. reflexivity. Qed.
 
-  Lemma resolve_attrs_ok attrs : Forall attr_wf attrs -> attrs_in attrs ->
+  Lemma resolve_attrs_ok attrs : Forall attr_wf0 attrs -> attrs_in attrs ->
     resolve_attrs E (map (fun a : attr => let '(ns, local, v) := a in (qname pm ns local, v)) attrs) = Some attrs.
   Proof.
     induction 1 as [|[[ns l] v] r Ha _ IH]; intros HI; [reflexivity|]. cbn [map resolve_attrs].
@@ -373,14 +373,14 @@ Section Resolve.
     rewrite resolve_qname; [|apply (HI (ns, l, v)); left; reflexivity | exact H3 | exact H1].
     rewrite IH; [reflexivity|]. intros a Ha. apply HI. right. exact Ha.
   Qed.
-  Lemma own_not_decl attrs : Forall attr_wf attrs -> attrs_in attrs ->
+  Lemma own_not_decl attrs : Forall attr_wf0 attrs -> attrs_in attrs ->
     forall k v, In (k, v) (map (fun a : attr => let '(ns, local, v) := a in (qname pm ns local, v)) attrs) -> is_decl_key k = false.
   Proof.
     intros HW HI k v H. apply in_map_iff in H. destruct H as [[[ns l] v'] [Ee Ha]]. injection Ee as <- <-.
     rewrite Forall_forall in HW. destruct (HW _ Ha) as [H1 [H2 [H3 _]]].
     apply qname_not_decl_key; [apply (HI _ Ha) | exact H3 | exact H1 | exact H2].
   Qed.
-  Lemma own_keys_NoDup attrs : Forall attr_wf attrs -> attrs_in attrs -> nodup_keys attrs = true ->
+  Lemma own_keys_NoDup attrs : Forall attr_wf0 attrs -> attrs_in attrs -> nodup_keys attrs = true ->
     NoDup (map fst (map (fun a : attr => let '(ns, local, v) := a in (qname pm ns local, v)) attrs)).
   Proof.
     induction 1 as [|[[ns l] v] r Ha HW IH]; intros HI ND; [constructor|]. cbn [map fst nodup_keys] in *.
@@ -404,7 +404,7 @@ Section Resolve.
 
   Theorem open_inner ns name attrs :
     In ns (dict_keys pm) -> ns <> xmlns_ns -> is_ncname name = true ->
-    Forall attr_wf attrs -> attrs_in attrs -> sort_attrs attrs = attrs -> nodup_keys attrs = true ->
+    Forall attr_wf0 attrs -> attrs_in attrs -> sort_attrs attrs = attrs -> nodup_keys attrs = true ->
     open_element E (qname pm ns name) (tok_attrs pm attrs) = Some (E, ns, name, attrs).
   Proof.
     intros Hk Hx Hn HW HI HS HN. unfold open_element, tok_attrs. rewrite HS.
@@ -440,7 +440,7 @@ Section Resolve.
 
   Theorem open_root ns name attrs :
     In ns (dict_keys pm) -> ns <> xmlns_ns -> is_ncname name = true ->
-    Forall attr_wf attrs -> attrs_in attrs -> sort_attrs attrs = attrs -> nodup_keys attrs = true ->
+    Forall attr_wf0 attrs -> attrs_in attrs -> sort_attrs attrs = attrs -> nodup_keys attrs = true ->
     open_element initial_env (qname pm ns name) (root_tok_attrs pm attrs) = Some (E, ns, name, attrs).
   Proof.
     intros Hk Hx Hn HW HI HS HN. unfold open_element, root_tok_attrs, tok_attrs. rewrite HS. fold D.
@@ -500,7 +500,7 @@ Qed.
 Lemma wf_nss t : wf_node t -> forall x, In x (tree_nss t) -> uri_ok x /\ x <> xmlns_ns.
 Proof.
   induction t as [ns name attrs kids IHk|s|s|tg c] using node_ind'; intros HW x Hx; [|destruct Hx|destruct Hx|destruct Hx].
-  cbn [wf_node] in HW. destruct HW as [_ [H2 [H3 [H4 [_ [_ H7]]]]]]. apply wf_fix in H7.
+  cbn [wf_node] in HW. destruct HW as [_ [H2 [H3 [H4 [_ [_ H7]]]]]]. apply wf_fix in H7. apply attrs_wf0 in H4.
   apply tree_nss_tag in Hx. destruct Hx as [->|[Hx|[k [Hk Hx]]]].
   - split; assumption.
   - apply in_map_iff in Hx. destruct Hx as [[[n l] v] [<- Ha]]. rewrite Forall_forall in H4.
@@ -523,7 +523,7 @@ Section Tree.
   Theorem wf_resolves t : wf_node t -> (forall x, In x (tree_nss t) -> In x (dict_keys pm)) -> resolves E pm t.
   Proof.
     induction t as [ns name attrs kids IHk|s|s|tg c] using node_ind'; intros HW HC; try exact I.
-    cbn [resolves]. pose proof HW as HW0. cbn [wf_node] in HW. destruct HW as [H1 [H2 [H3 [H4 [H5 [H6 H7]]]]]]. apply wf_fix in H7.
+    cbn [resolves]. pose proof HW as HW0. cbn [wf_node] in HW. destruct HW as [H1 [H2 [H3 [H4 [H5 [H6 H7]]]]]]. apply wf_fix in H7. apply attrs_wf0 in H4.
     split.
     - apply (open_inner pm PF); try assumption.
       + apply HC. apply tree_nss_tag. left. reflexivity.
@@ -574,7 +574,7 @@ Section Toks.
   Hypothesis PF : pm_facts pm.
   Hypothesis URI : forall n, In n (dict_keys pm) -> uri_ok n.
 
-  Lemma tok_attrs_ok attrs : Forall attr_wf attrs -> attrs_in pm attrs -> sort_attrs attrs = attrs ->
+  Lemma tok_attrs_ok attrs : Forall attr_wf0 attrs -> attrs_in pm attrs -> sort_attrs attrs = attrs ->
     Forall (fun kv : str * str => is_name (fst kv) = true /\ Forall attr_char_ok (snd kv)) (tok_attrs pm attrs).
   Proof.
     intros HW HI HS. unfold tok_attrs. rewrite HS. apply Forall_forall. intros [k v] H.
@@ -674,7 +674,7 @@ Section ToksTree.
     is_text n = false -> node_toks_ok pm n.
   Proof.
     induction n as [ns name attrs kids IHk|s|s|tg c] using node_ind'; intros HW HC HK HT; try discriminate.
-    - cbn [wf_node] in HW. destruct HW as [H1 [H2 [H3 [H4 [H5 [H6 H7]]]]]]. apply wf_fix in H7.
+    - cbn [wf_node] in HW. destruct HW as [H1 [H2 [H3 [H4 [H5 [H6 H7]]]]]]. apply wf_fix in H7. apply attrs_wf0 in H4.
       destruct (clean_tag_inv _ _ _ _ HC) as [C1 C2].
       destruct (kids_premises kids H7 C2 IHk) as [P1 P2].
       { intros k x Hk Hx. apply HK. apply tree_nss_tag. right. right. exists k. split; assumption. }
@@ -687,7 +687,7 @@ Section ToksTree.
       intros _. split; assumption.
     - cbn [wf_node] in HW. unfold node_toks_ok. cbn [toks_node]. split; [constructor; [split; [apply comment_validator_ok; exact (proj1 HW) | exact (proj2 HW)] | constructor]|].
       split; [exact I|]. intros _. split; [reflexivity|]. exists [], (TComment s). split; reflexivity.
-    - cbn [wf_node] in HW. destruct HW as [H1 [H2 [H3 [H4 H5]]]]. unfold node_toks_ok. cbn [toks_node].
+    - cbn [wf_node] in HW. destruct HW as [H1 [H2 [H3 [H4 H5]]]]. apply pi_validator_ok in H4. unfold node_toks_ok. cbn [toks_node].
       assert (Hn : is_name tg = true) by (unfold is_ncname in H1; apply andb_prop in H1; destruct H1; assumption).
       split; [constructor; [repeat split; assumption | constructor]|].
       split; [exact I|]. intros _. split; [reflexivity|]. exists [], (TPI tg c). split; reflexivity.
@@ -698,7 +698,7 @@ Section ToksTree.
     wf_node t -> clean t = true -> (forall x, In x (tree_nss t) -> In x (dict_keys pm)) ->
     Forall tok_ok (toks_root pm t) /\ no_adj_ttext (toks_root pm t).
   Proof.
-    intros t HW HC HK. unfold t in *. cbn [wf_node] in HW. destruct HW as [H1 [H2 [H3 [H4 [H5 [H6 H7]]]]]]. apply wf_fix in H7.
+    intros t HW HC HK. unfold t in *. cbn [wf_node] in HW. destruct HW as [H1 [H2 [H3 [H4 [H5 [H6 H7]]]]]]. apply wf_fix in H7. apply attrs_wf0 in H4.
     destruct (clean_tag_inv _ _ _ _ HC) as [C1 C2].
     assert (IHk : Forall (fun k => wf_node k -> clean k = true -> (forall x, In x (tree_nss k) -> In x (dict_keys pm)) ->
                                    is_text k = false -> node_toks_ok pm k) kids).
@@ -775,7 +775,7 @@ Proof.
   { intros n Hn. apply (wf_nss _ HW). destruct (collect_keys _ _ _ _ EC n Hn) as [->|Hn'].
     - apply root_ns_in_tree_nss. reflexivity.
     - apply (order_ok_same_set _ _ HO). exact Hn'. }
-  pose proof HW as HW0. cbn [wf_node] in HW. destruct HW as [H1 [H2 [H3 [H4 [H5 [H6 H7]]]]]]. apply wf_fix in H7.
+  pose proof HW as HW0. cbn [wf_node] in HW. destruct HW as [H1 [H2 [H3 [H4 [H5 [H6 H7]]]]]]. apply wf_fix in H7. apply attrs_wf0 in H4.
   set (E0 := decl_env (declared_attributes pm) ++ initial_env).
   assert (OR : open_element initial_env (qname pm ns name) (root_tok_attrs pm attrs) = Some (E0, ns, name, attrs)).
   { apply (open_root pm PF); try assumption.
